@@ -193,7 +193,7 @@ func (p *Program) syncCensus() []string {
 				case *ssa.Defer:
 					if c := x.Call.StaticCallee(); c != nil && c.Pkg != nil {
 						pp := c.Pkg.Pkg.Path()
-						if (pp == "sync" || pp == "sync/atomic") && c.String() != "(*sync.Mutex).Unlock" {
+						if (pp == "sync" || pp == "sync/atomic") && !modelledSync[c.String()] {
 							found = appendUniq(found, fn.String()+": deferred call to "+c.String())
 						}
 					}
@@ -201,7 +201,7 @@ func (p *Program) syncCensus() []string {
 					if c := x.Call.StaticCallee(); c != nil && c.Pkg != nil {
 						pp := c.Pkg.Pkg.Path()
 						if pp == "sync" || pp == "sync/atomic" {
-							if c.String() == "(*sync.Mutex).Lock" || c.String() == "(*sync.Mutex).Unlock" || c.Name() == "init" {
+							if modelledSync[c.String()] || c.Name() == "init" {
 								continue // modelled: critical sections of package-level mutexes
 							}
 							found = appendUniq(found, fn.String()+": call to "+c.String())
@@ -212,6 +212,16 @@ func (p *Program) syncCensus() []string {
 		}
 	}
 	return found
+}
+
+// modelledSync: the synchronisation the access-set analysis understands. Lock/Unlock of a
+// shared (RW)Mutex delimit an exclusive critical section; RLock/RUnlock exclude writers only, so
+// a write made while holding just the read lock is still unordered with respect to the other
+// readers and is reported like an unprotected one.
+var modelledSync = map[string]bool{
+	"(*sync.Mutex).Lock": true, "(*sync.Mutex).Unlock": true,
+	"(*sync.RWMutex).Lock": true, "(*sync.RWMutex).Unlock": true,
+	"(*sync.RWMutex).RLock": true, "(*sync.RWMutex).RUnlock": true,
 }
 
 type muxObj struct {
@@ -295,6 +305,10 @@ func registerDefaultsBoundary(p *Program) {
 		}
 		return nil
 	}
+	I["(*sync.RWMutex).Lock"] = I["(*sync.Mutex).Lock"]
+	I["(*sync.RWMutex).Unlock"] = I["(*sync.Mutex).Unlock"]
+	I["(*sync.RWMutex).RLock"] = func(ex *Exec, fr *frame, fn *ssa.Function, a []Value) Value { return nil }
+	I["(*sync.RWMutex).RUnlock"] = func(ex *Exec, fr *frame, fn *ssa.Function, a []Value) Value { return nil }
 	I["net/smtp.SendMail"] = func(ex *Exec, fr *frame, fn *ssa.Function, a []Value) Value { return nilError }
 }
 
